@@ -206,15 +206,40 @@ Proof.
   destruct master as [m|]; reflexivity.
 Qed.
 
-(* git destination: exactly the entries whose revision is a commit of the repository are kept *)
-Theorem git_store_entries cs d d' kv :
-  stored (DGit cs) d = Some d' -> (In kv d' <-> In kv d /\ git_keeps cs kv = true).
-Proof. cbn [stored]. intros H; inversion H; subst. apply filter_In. Qed.
-
-Theorem git_store_guarded cs d :
-  forallb (git_keeps cs) d = true -> stored (DGit cs) d = Some d.
+(* git destination: an entry whose revision is a commit is stored; otherwise the name keeps its old
+   value (if it had one); nothing else appears *)
+Theorem git_store_entries cs old d d' k v :
+  stored (DGit cs) old d = Some d' ->
+  (In (k, v) d' <->
+   (In (k, v) d /\ git_keeps cs (k, v) = true)
+   \/ (exists v', In (k, v') d /\ git_keeps cs (k, v') = false /\ dict_get bytes_eqb old k = Some v)).
 Proof.
-  cbn [stored]. intros H. f_equal.
-  induction d as [|kv d IH]; cbn [filter forallb] in *; [reflexivity|].
-  apply andb_prop in H. destruct H as [H1 H2]. rewrite H1, (IH H2). reflexivity.
+  cbn [stored]. intros H; inversion H; subst; clear H. unfold git_set. rewrite in_flat_map. split.
+  - intros [[k' v'] [Hin Hs]]. unfold git_set_entry in Hs. cbn [fst] in Hs.
+    destruct (git_keeps cs (k', v')) eqn:E.
+    + destruct Hs as [Hs|[]]. inversion Hs; subst. left; split; assumption.
+    + destruct (dict_get bytes_eqb old k') as [w|] eqn:G; [|contradiction].
+      destruct Hs as [Hs|[]]. inversion Hs; subst. right. exists v'. repeat split; assumption.
+  - intros [[Hin E]|[v' [Hin [E G]]]].
+    + exists (k, v). split; [exact Hin|]. unfold git_set_entry. rewrite E. left; reflexivity.
+    + exists (k, v'). split; [exact Hin|]. unfold git_set_entry. rewrite E. cbn [fst]. rewrite G. left; reflexivity.
+Qed.
+
+(* a name that the destination already had and that is in the dict handed over is never lost,
+   whether or not its new revision can be stored *)
+Theorem git_store_no_tag_lost cs old d d' k v w :
+  stored (DGit cs) old d = Some d' -> In (k, v) d -> dict_get bytes_eqb old k = Some w ->
+  exists x, In (k, x) d'.
+Proof.
+  intros H Hin G. destruct (git_keeps cs (k, v)) eqn:E.
+  - exists v. apply (git_store_entries _ _ _ _ _ _ H). left; split; assumption.
+  - exists w. apply (git_store_entries _ _ _ _ _ _ H). right. exists v. repeat split; assumption.
+Qed.
+
+Theorem git_store_guarded cs old d :
+  forallb (git_keeps cs) d = true -> stored (DGit cs) old d = Some d.
+Proof.
+  cbn [stored]. intros H. f_equal. unfold git_set.
+  induction d as [|kv d IH]; cbn [flat_map forallb] in *; [reflexivity|].
+  apply andb_prop in H. destruct H as [H1 H2]. unfold git_set_entry at 1. rewrite H1, (IH H2). reflexivity.
 Qed.
